@@ -45,6 +45,10 @@ def run_jobs(root, jobs, workers=12, timeout=900):
                 raise
             tr = pickle.load(open(job["out"], "rb"))
             os.unlink(job["out"])
+            if tr.get("end") == "inadmissible-initial-overlap" and job.get("_retry", 0) < 8:
+                # hard-core family: the random initial state had overlapping cores (outside every property's quantifier): other seed
+                jobs[k] = {**jobs[k], "seed": jobs[k].get("seed", 0) + 7919, "_retry": job.get("_retry", 0) + 1}
+                return one(k)
         except subprocess.TimeoutExpired:
             tr = {"meta": {"ini": job["ini"]}, "legs": [], "writes": [], "end": "timeout"}
         except Exception as e:
